@@ -1,5 +1,6 @@
 import Efp.Model.Val
 import Efp.Proofs.Series
+import Efp.Props.C04
 /-!
 # C09 — explainable quantities obey unit-safe arithmetic
 
@@ -197,6 +198,45 @@ theorem neg_total (x : HQ) : (HQ.mk (Series.neg x.vals) x.unit).totalPhys = - x.
 theorem sum_is_total (x : HQ) (q : Qty) (h : Val.sum (.h x) = .ok (.q q)) : q.phys = x.totalPhys := by
   simp only [Val.sum] at h
   injection h with h; injection h with h; subst h; rfl
+
+/-! ## `.max()` -/
+
+theorem foldl_max_mem (l : Series) (v : Rat) :
+    l.foldl (fun m p => if p.2 > m then p.2 else m) v = v ∨
+      ∃ p ∈ l, p.2 = l.foldl (fun m p => if p.2 > m then p.2 else m) v := by
+  induction l generalizing v with
+  | nil => left; rfl
+  | cons q qs ih =>
+    simp only [List.foldl_cons]
+    rcases ih (if q.2 > v then q.2 else v) with h | ⟨p, hp, h⟩
+    · by_cases hq : q.2 > v
+      · simp only [hq, if_true] at h ⊢
+        right; exact ⟨q, by simp, h.symm⟩
+      · simp only [hq, if_false] at h ⊢
+        left; exact h
+    · right; exact ⟨p, List.mem_cons_of_mem _ hp, h⟩
+
+/-- **the max of an hourly series is one of its hourly values, in the series' unit, and no hourly value
+exceeds it** — also when every value is negative (seed C09-e returns 0 there) -/
+theorem max_is_the_largest_hourly_value (x : HQ) (v : Val) (h : Val.max (.h x) = .ok v) :
+    ∃ m : Rat, v = .q ⟨m, x.unit⟩ ∧ (∃ p ∈ x.vals, p.2 = m) ∧ ∀ p ∈ x.vals, p.2 ≤ m := by
+  simp only [Val.max] at h
+  cases hm : Series.maxVal x.vals with
+  | none => simp [hm] at h
+  | some m =>
+    simp only [hm, Except.ok.injEq] at h
+    refine ⟨m, h.symm, ?_, C04.maxVal_ge x.vals m hm⟩
+    cases hx : x.vals with
+    | nil => rw [hx] at hm; cases hm
+    | cons q qs =>
+      obtain ⟨k, w⟩ := q
+      rw [hx] at hm
+      simp only [Series.maxVal, Option.some.injEq] at hm
+      rcases foldl_max_mem qs w with h1 | ⟨p, hp, h1⟩
+      · exact ⟨(k, w), by simp, by rw [← hm, h1]⟩
+      · exact ⟨p, List.mem_cons_of_mem _ hp, by rw [← hm, h1]⟩
+
+example : Val.max (.h ⟨[(0, -3), (3600, -1), (7200, -2)], ⟨1, {}⟩⟩) = .ok (.q ⟨-1, ⟨1, {}⟩⟩) := by decide +kernel
 
 /-! ## shift by a duration -/
 
